@@ -69,7 +69,8 @@ Definition store_scale_down (st : store) (i : nat) (k : Z) (meta : option nat) :
    (e.g. Sequence.scale(k) with its default quantise_afterwards=True); stops at the first error like Python *)
 Inductive hop : Set := HOp (o : op) | HSeq (os : list op)
 | HScaleDown (i : nat) (k : Z) (meta : option nat) (then_ : list op)    (* scale(1/k, meta) and, if it succeeds, then_ *)
-| HFail (o : op) (e : err).        (* a call that has the state effect of o and then raises e (argument validation) *)
+| HFail (o : op) (e : err)         (* a call that has the state effect of o and then raises e (argument validation) *)
+| HRaise (e : err).                (* a call that raises before it changes anything *)
 Fixpoint hseq (st : store) (os : list op) (last : out) : store * out :=
   match os with
   | [] => (st, last)
@@ -84,6 +85,7 @@ Definition hstep (st : store) (h : hop) : store * out :=
       let '(st1, x) := store_scale_down st i k meta in
       match x with OErr _ => (st1, x) | _ => hseq st1 then_ x end
   | HFail o e => let '(st1, x) := step st o in (st1, match x with OErr _ => x | _ => OErr e end)
+  | HRaise e => (st, OErr e)
   end.
 
 Fixpoint run_h (st : store) (hs : list hop) : store * list out :=
